@@ -193,12 +193,14 @@ package hessian
 // ---------------------------------------------------------------- value plumbing (bounded stand-in covers the assignments)
 
 //@ func SetValue
+//@   maypanic reflect assignment of a decoded value whose type does not fit the destination
 //@   assigns @rset
 //@   loop 1 invariant [C14:setvalue-walk] true
 //@   loop 2 invariant [C14:setvalue-walk] true
 //@   ensures [C14:setvalue-total] true
 
 //@ func SetSlice
+//@   maypanic reflect assignment of a decoded value whose type does not fit the destination
 //@   assigns @rset, @E
 //@   ensures [C14:setslice-total] true
 
@@ -206,6 +208,7 @@ package hessian
 //@   loop 1 invariant [C14:notify-index] true
 
 //@ func ConvertSliceValueType
+//@   maypanic reflect assignment of a decoded value whose type does not fit the destination
 //@   assigns @rset, @E
 //@   loop 1 invariant [C14:convert-index] 0 <= i
 //@   ensures [C14:convert-total] true
